@@ -237,15 +237,16 @@ theorem compiled_link_absolute (scope link r : List Seg) (hroot : scope.head? = 
             simp only at hj
             simp only [hp, Option.some.injEq] at h
             subst h
+            have hfr : formatSeg rootSeg = rootSeg := by decide
             by_cases he : sc.isEmpty = true
-            · simp [he]
+            · simp [he, hfr]
             · simp only [he, Bool.false_eq_true, if_false]
               have hsc : sc ≠ [] := by cases sc <;> simp_all
               have : sc = (rootSeg :: srest).take (min j k) := by
                 rw [hj]; unfold chopScope; rw [hk, List.take_take]
               cases hm : min j k with
               | zero => rw [hm] at this; simp at this; exact absurd this hsc
-              | succ m => rw [hm] at this; rw [this]; simp
+              | succ m => rw [hm] at this; rw [this]; simp [hfr]
 
 /-! ### links inside imported files -/
 
@@ -253,8 +254,8 @@ theorem compiled_link_absolute (scope link r : List Seg) (hroot : scope.head? = 
     becomes `importing-path.t₁…tₙ`: it is rebased onto the importing board. -/
 theorem import_rebase_correct (imp tail : List Seg) (r : Seg)
     (h : ∀ x, tail.head? = some x → isUnderscore x = false) :
-    extendLink imp (r :: tail) = imp ++ tail := by
-  unfold extendLink
+    extendLinkRaw imp (r :: tail) = imp ++ tail := by
+  unfold extendLinkRaw
   cases tail with
   | nil => simp [extendTail]
   | cons x rest =>
@@ -263,8 +264,8 @@ theorem import_rebase_correct (imp tail : List Seg) (r : Seg)
 
 /-- each leading `_` of the rest pops one board (a kind word and a name) off the importing path -/
 theorem import_rebase_underscore (p tail : List Seg) (k n r u : Seg) (hu : isUnderscore u = true) :
-    extendLink (p ++ [k, n]) (r :: u :: tail) = extendLink p (r :: tail) := by
-  unfold extendLink
+    extendLinkRaw (p ++ [k, n]) (r :: u :: tail) = extendLinkRaw p (r :: tail) := by
+  unfold extendLinkRaw
   simp [extendTail, hu]
 
 /-- **relink_points_to_file**: when the current board's file is `/D…/f` and the linked board's file is `/V…` (cleaned
